@@ -2,7 +2,7 @@
 (* Batch validation of recorded call histories of PersistenceLandscaper / PersistenceImager (C18).
    case : kind ("landscaper" | "imager"), ufix = [ustart, ustop] with 1000000 = not fixed (landscaper; ticks),
           datasets = [[min birth, max death, [element keys in order]]] (1-based ids; for the landscaper of the selected degree),
-          events = [[opcode, ds, attrs, outs]] with opcode 1 = fit, 2 = transform, 3 = fit_transform,
+          events = [[opcode, ds, attrs, outs]] with opcode 1 = fit, 2 = transform, 3 = fit_transform, 4 = set_params on a parameter other than the bounds,
                    attrs = decoded public attributes after the call (ints), outs = [[element key, digest]] of the returned value(s),
                    then a decodable flag, the digest of the exact float attributes (memo key) and a flag "the images of the empty diagrams
                    inserted among the others were all-zero and in place" (1 when none were inserted)
@@ -27,6 +27,7 @@ Walk(c, i, prevAttrs, fitted, memoOut, memoFit) ==
            clash == \E x \in newOut : \E y \in (memoOut \cup newOut) : x[1] = y[1] /\ x[2] = y[2] /\ x[3] # y[3]
        IN IF e[5] = 0 THEN <<"fail", i, "attribute-or-output-not-decodable">>
           ELSE IF op = 2 /\ attrs # prevAttrs THEN <<"fail", i, "transform-altered-fitted-state">>
+          ELSE IF op = 4 /\ attrs # prevAttrs THEN <<"fail", i, "set_params-on-another-parameter-altered-the-bounds">>
           ELSE IF op \in {1, 3} /\ c.kind = "landscaper" /\ attrs # ExpectedLS(c, ds) THEN <<"fail", i, "fit-depends-on-earlier-fits-or-ignores-user-fixed-parameters">>
           ELSE IF op \in {1, 3} /\ c.kind = "imager" /\ \E m \in memoFit : m[1] = ds /\ m[2] # attrs THEN <<"fail", i, "fit-depends-on-earlier-fits">>
           ELSE IF op \in {2, 3} /\ keys # Tup(c.datasets[ds][3]) THEN <<"fail", i, "collection-not-mapped-element-by-element-in-order">>
